@@ -726,10 +726,20 @@ def paired_runs(ctx):
              dict(query=q2[:, order], genes=[genes2[j] for j in order], normalization='log2CPM'))
         # (e) negative raw value
         neg = raw.copy()
-        neg[rng.randrange(ncell), rng.randrange(ng)] = -1.0
+        if rng.random() < 0.5:
+            neg[rng.randrange(ncell), rng.randrange(ng)] = -1.0
+            enc_neg, chunks_neg = rng.choice(['dense', 'csr', 'csc']), rng.choice([None, None, 1, 2, 3])
+        else:
+            # a chunked dense file scanned in several blocks, the negative value sitting in a block that also
+            # holds a new running maximum (the last column grows down the rows)
+            for i in range(ncell):
+                neg[i, ng - 1] = 1000.0 + 10.0 * i
+            neg[rng.randrange(ncell), ng - 1] = -1.0
+            enc_neg, chunks_neg = 'dense', rng.choice([1, 2])
         ctx.count(('c07', k, 'negative'), nontrivial=True)
         ctx.dist('relation', 'negative-raw')
-        r = paired.run_once(ctx, sc, f'n{k}', query=neg, normalization='raw', encoding=rng.choice(['dense', 'csr', 'csc']), **v1)
+        ctx.dist('negative_layout', f'{enc_neg} chunks={chunks_neg}')
+        r = paired.run_once(ctx, sc, f'n{k}', query=neg, normalization='raw', encoding=enc_neg, h5_chunks=chunks_neg, **v1)
         if r['ok'] or (r['output'] or {}).get('results'):
             dd = dict(desc)
             dd['class'] = 'c07-negative-accepted'
